@@ -522,9 +522,6 @@ package validate
 //@ func IsValueValidAgainstRange
 //@   requires[C06] val != nil
 //@   pure
-//@ func FormatOf
-//@   assume strfmt.Default != nil
-//@   modifies *
 //@ func UniqueItems
 //@   pure
 //@   loop 1 invariant 0 <= i
@@ -573,3 +570,56 @@ package validate
 //@ func (*schemaPropsValidator).validateDependencies
 //@   requires[C06] typeis(data, "map[string]interface{}")
 //@   modifies *
+
+// ---------------------------------------------------------------------------
+// C14: exported value helpers implement their textbook definitions (pure: no modifies).
+//@ func MinLength
+//@   pure
+//@   ensures[C14,C16] (result != nil) == (runes(data) < minLength)
+//@ func MaxLength
+//@   pure
+//@   ensures[C14,C16] (result != nil) == (runes(data) > maxLength)
+//@ func MinItems
+//@   pure
+//@   ensures[C14,C16] (result != nil) == (size < minimum)
+//@ func MaxItems
+//@   pure
+//@   ensures[C14,C16] (result != nil) == (size > maximum)
+//@ func RequiredString
+//@   pure
+//@   ensures[C14] (result != nil) == (data == "")
+//@ func RequiredNumber
+//@   mode bv
+//@   pure
+//@   ensures[C14] (result != nil) == (data == 0.0)
+//@ func Pattern
+//@   modifies heap("M$atomic.Value"), ghost("G$held"), ghost("G$published")
+//@   ensures[C14,C15,C16] (result == nil) == (validRE(pattern) && reMatch(pattern, data))
+//@ func FormatOf
+//@   assume strfmt.Default != nil
+//@   pure
+//@   ensures[C14,C16] implies(registry != nil, (result == nil) == (regContains(registry, format) && regValidates(registry, format, data)))
+//@   ensures[C14] implies(registry == nil, (result == nil) == (regContains(strfmt.Default, format) && regValidates(strfmt.Default, format, data)))
+
+// ---------------------------------------------------------------------------
+// C15: pattern matching always uses the expression asked for. The cache invariant (every non-nil entry was
+// compiled from its key) is required of every map stored into reDict and assumed of every map loaded from it;
+// published maps are never updated in place, so the invariant is stable under interference.
+//@ func compileRegexp
+//@   modifies ghost("G$held"), ghost("G$published")
+//@   ensures[C15] (result1 == nil) == validRE(pattern)
+//@   ensures[C15] implies(result1 == nil, result0 != nil && reSrc(result0) == pattern)
+//@   ensures[C15] implies(result1 != nil, result0 == nil)
+//@ func mustCompileRegexp
+//@   maypanic
+//@   modifies ghost("G$held"), ghost("G$published")
+//@   ensures[C15] result != nil && reSrc(result) == pattern
+//@ func cacheRegexp
+//@   assume cacheMutex != nil
+//@   requires[C15] r != nil && validRE(reSrc(r))
+//@   modifies ghost("G$held"), ghost("G$published")
+//@   ensures[C15,C05] held(cacheMutex) == old(held(cacheMutex))
+//@   requires[C15,C05] !held(cacheMutex)
+//@   loop 1 invariant cacheInv(newCache)
+//@   loop 1 invariant !published(newCache)
+//@   loop 1 invariant held(cacheMutex)
